@@ -79,6 +79,21 @@ fn main() {
         });
     }
 
+    // Per-case monitor: a generated case that runs for longer than the per-case limit (orders of magnitude above
+    // the cost of any case the generators produce) is replayed in an isolated process under the same limit; only
+    // if it fails to finish there too is it reported as a violation (clause `nontermination`).
+    if replay.is_none() {
+        let limit = case_limit(tier);
+        let prop_id = prop_id.clone();
+        let partial_out = partial_out.clone();
+        std::thread::spawn(move || loop {
+            std::thread::sleep(std::time::Duration::from_secs(5));
+            if let Some((sub, case, secs)) = kit::runner::overdue_case(limit) {
+                on_overdue(&prop_id, tier, seed, &sub, case, secs, limit, partial_out.as_deref());
+            }
+        });
+    }
+
     let def = match props::get(&prop_id) {
         Some(d) => d,
         None => {
@@ -138,6 +153,77 @@ fn main() {
         extra(&ctx, &mut report);
     }
     finish(&ctx, &def, report, t0.elapsed().as_secs_f64());
+}
+
+fn case_limit(tier: Tier) -> std::time::Duration {
+    let s: u64 = std::env::var("VERIF_CASE_LIMIT_S").ok().and_then(|s| s.parse().ok()).unwrap_or(match tier {
+        Tier::Quick => 120,
+        Tier::Thorough => 900,
+    });
+    std::time::Duration::from_secs(if cfg!(debug_assertions) { 2 * s } else { s })
+}
+
+fn make_ctx(def: &props::PropDef, tier: Tier, seed: u64) -> Ctx {
+    Ctx {
+        prop: def.id,
+        tier,
+        seed,
+        threads: 1,
+        known: kit::findings::known_for(def.id),
+        scale: 1.0,
+        profile: if cfg!(debug_assertions) { "dbg" } else { "release" },
+    }
+}
+
+/// A case exceeded the per-case limit: confirm in an isolated process, then report (never returns if confirmed
+/// or refuted; returns only if the confirmation could not be started).
+#[allow(clippy::too_many_arguments)]
+fn on_overdue(prop_id: &str, tier: Tier, seed: u64, sub: &str, case: serde_json::Value, secs: f64, limit: std::time::Duration, partial_out: Option<&str>) -> ! {
+    let root = verif_root();
+    let def = props::get(prop_id).expect("property");
+    let ctx = make_ctx(&def, tier, seed);
+    let detail = format!("a generated case was still running after {secs:.0} s (per-case limit {} s; cases of this sub-check normally take milliseconds to seconds)", limit.as_secs());
+    let body = serde_json::json!({"property": prop_id, "sub": sub, "clause": "nontermination", "detail": detail, "seed": seed, "tier": tier.as_str(), "case": case});
+    let bytes = serde_json::to_vec_pretty(&body).unwrap();
+    let _ = std::fs::create_dir_all(format!("{root}/replays"));
+    let path = format!("{root}/replays/{}-hang-{:016x}.json", prop_id, kit::fnv64(&bytes));
+    let _ = std::fs::write(&path, &bytes);
+    eprintln!("[{prop_id}] a case of sub-check {sub} exceeded the per-case limit; confirming in an isolated process ({path})");
+    let me = std::env::current_exe().expect("current_exe");
+    let out = std::process::Command::new(&me)
+        .arg(prop_id)
+        .arg(tier.as_str())
+        .arg("--replay")
+        .arg(&path)
+        .env("VERIF_REPLAY_CHILD", "1")
+        .env("VERIF_CASE_LIMIT_S", limit.as_secs().to_string())
+        .output();
+    let (code, text) = match out {
+        Ok(o) => (o.status.code().unwrap_or(-1), String::from_utf8_lossy(&o.stdout).into_owned()),
+        Err(e) => (-1, format!("{e}")),
+    };
+    let violation = match code {
+        3 => Violation { sub: sub.to_string(), clause: "nontermination".into(), detail: format!("{detail}; replayed alone in a fresh process it again did not finish within the limit"), case },
+        1 => {
+            // finished in isolation, but with a violation of its own
+            let clause = text.split("clause=").nth(1).and_then(|t| t.split(" :: ").next()).unwrap_or("nontermination").trim().to_string();
+            let d = text.split(" :: ").nth(1).unwrap_or("").trim().to_string();
+            Violation { sub: sub.to_string(), clause, detail: format!("(found by replaying a case that exceeded the per-case limit) {d}"), case }
+        }
+        _ => {
+            eprintln!("INCONCLUSIVE: a case of {prop_id}/{sub} exceeded the per-case limit ({secs:.0} s) but finished when replayed alone (exit {code}); no verdict");
+            std::process::exit(2);
+        }
+    };
+    let mut report = Report::default();
+    let mut sr = kit::report::SubReport { name: sub.to_string(), rule: "(run interrupted by a non-terminating case)".into(), evaluations: 1, ..Default::default() };
+    sr.violations.push(violation);
+    report.subs.push(sr);
+    if let Some(p) = partial_out {
+        std::fs::write(p, serde_json::to_vec(&report).unwrap()).expect("write partial report");
+        std::process::exit(0);
+    }
+    finish(&ctx, &def, report, secs);
 }
 
 pub fn finish(ctx: &Ctx, def: &props::PropDef, report: Report, wall: f64) -> ! {
@@ -215,6 +301,25 @@ fn do_replay(ctx: &Ctx, def: &props::PropDef, path: &str) -> ! {
         eprintln!("replay file names unknown sub-check {subname}");
         std::process::exit(2);
     });
+    {
+        // a replay that does not finish: reproduces a recorded `nontermination`, otherwise no verdict
+        let limit = case_limit(ctx.tier);
+        let child = std::env::var("VERIF_REPLAY_CHILD").is_ok();
+        let recorded_hang = v["clause"].as_str() == Some("nontermination");
+        let (prop, path, subname) = (ctx.prop.to_string(), path.to_string(), subname.to_string());
+        std::thread::spawn(move || {
+            std::thread::sleep(limit);
+            if child {
+                std::process::exit(3);
+            }
+            if recorded_hang {
+                println!("VIOLATION property={prop} replay={path} sub={subname} clause=nontermination :: the case again did not finish within {} s", limit.as_secs());
+                std::process::exit(1);
+            }
+            eprintln!("INCONCLUSIVE: replay still running after {} s; no verdict", limit.as_secs());
+            std::process::exit(2);
+        });
+    }
     match sub.replay(ctx, &v["case"]) {
         Ok(()) => {
             println!("REPLAY-OK property={} sub={} (case passes on this tree)", ctx.prop, subname);
